@@ -36,7 +36,7 @@ COMPONENTS_REAL = ["geneticengine.random.sources.NativeRandomSource", "geneticen
 COMPONENTS_STUB = ["set iteration order (OrderedSimSet) in process; real in the fresh-interpreter stratum", "time.monotonic_ns (SimClock)", "fitness (structural hash of the program)"]
 ASSUMPTIONS = ["wall-clock budgets are excepted by the property; TimeBudget only appears under the simulated clock with a limit that never fires"]
 
-FEAT = features(list=2, annlist=2, union=1, tuple=1, nested=1, standalone=1, cls=8, refined=3, weights=1)
+FEAT = features(list=2, annlist=2, union=1, tuple=1, nested=1, standalone=1, cls=8, refined=3, weights=1, dependent=2)
 
 
 def budget(tier):
